@@ -414,6 +414,7 @@ def run(ctx, rep):
     module_identity(F, rep)
     names_import_shares(F, rep)
     exports_declared_once(F, rep)
+    modules_are_not_left_by_return(F, rep)
 
 
 def rules_fn_arg(fn, op):
@@ -631,3 +632,37 @@ def exports_declared_once(F, rep):
             v, info = rules.guarded_by_bool(fm, [a.bb], [t.dst["l"] for t in tests], want=False)
         rep.ob("C11.export-once", "ModuleType::from_node adds an export only if the name is not exported yet", v, str(info) if v != "ok" else "", a.span, fn=fm.path,
                key="C11.export-once|#%d" % i)
+
+
+
+def modules_are_not_left_by_return(F, rep, rule="C11.module-exit"):
+    """The code that imports a module waits for the module object its top-level function yields (`ret_mod`).  A `return` statement compiles
+    to `ret`: at the top level of a module (also inside its ifs and loops) it would end the module without one, and the importer stops with
+    "did not yield a module".  Parser::return_statement therefore succeeds only behind the passing edge of a test that finds a function
+    among the enclosing scopes (a callee that reaches Scope::is_function)."""
+    rs = None
+    for g in F.crates["compiler"].fns:
+        if g.path.endswith("::return_statement") and "impl compiler::parser::Parser" in g.path and g.kind != "Closure":
+            rs = g
+    if rs is None:
+        raise AnchorMissing("Parser::return_statement")
+    ISF = "compiler::scope::Scope::is_function"
+
+    def scans_for_function(g, depth=2):
+        if g is None:
+            return False
+        bodies = [g] + F.closures_of(g)
+        if any(b.calls_to(ISF) for b in bodies):
+            return True
+        if depth == 0:
+            return False
+        return any(scans_for_function(F.fn(c.callee()), depth - 1) for b in bodies for c in b.calls() if c.callee().startswith("compiler::"))
+    tests = [c for c in rs.calls() if rs.locals[c.dst["l"]].strip() == "bool" and c.callee().startswith("compiler::") and scans_for_function(F.fn(c.callee()))]
+    oks = rules.ok_return_blocks(rs)
+    rep.floor(rule + " successful returns of return_statement", len(oks), 2)
+    if not tests:
+        v, info = "violated", ("no test for an enclosing function: `if true { return }` at the top level of an imported module compiles, and the importer stops with "
+                               "`did not yield a module`")
+    else:
+        v, info = rules.guarded_by_bool(rs, oks, [c.dst["l"] for c in tests], want=True)
+    rep.ob(rule, "a `return` statement is accepted only inside of a function", v, str(info) if v != "ok" else "", rs.span, fn=rs.path, key=rule)
